@@ -329,6 +329,20 @@ def nontrivial_key(case, answers):
 
 
 class BTreeSpec(flow.Spec):
+    def probe_lines(self, case, idx):
+        """all queries over the key universe on the register whose structure differs"""
+        toks = case[idx].split()
+        regs = [t for t in toks[1:3] if t in ("0", "1")] or ["0"]
+        out = []
+        for r in dict.fromkeys(regs):
+            for k in range(0, 48):
+                for q in ("find", "lb", "ub", "eqr", "exists", "count"):
+                    out.append(f"{q} {r} {k}")
+            for m in range(16):
+                out.append(f"iter {r} {m}")
+            out.append(f"size {r}")
+        return out
+
     """common part of C01 and C02"""
     profile = "c01"
     case_timeout = 3600
